@@ -244,3 +244,56 @@ for mode in ('fwd', 'rev'):
                                if (mode, inp, has_out) == ('fwd', ('x1', 'x2'), True) else
                                ([('reverse mode skips the sub-jacobians', ('subjac.apply_rev(d_inputs, d_outputs, d_residuals, randgen)', 'pass'), 'post')]
                                 if (mode, inp, has_out) == ('rev', ('x1', 'x2'), True) else [])))
+
+
+# ---------------------------------------------------------------------------------------------
+# DictionaryJacobian._apply (implicit components / groups, single process): the residual rows of 'y' get
+#   J_ys d_outputs[s] + J_yx d_inputs[x]   in fwd mode, and d_outputs[s] += J_ys^T d_res, d_inputs[x] += J_yx^T d_res
+# in rev mode, over the SAME key set (a key is skipped in both modes exactly when its wrt or of variable is not in the
+# vectors' name sets).
+def dsub2(rs, cs, R, C, which):
+    return Obj('DenseSubjac', info=DictT({'val': Arr(R, C)}), _in_view=None, _out_view=None, _res_view=None,
+               row_slice=SliceT(rs[0], rs[1]), col_slice=SliceT(cs[0], cs[1]),
+               apply_fwd=BoundTo('_apply_fwd_' + which), apply_rev=BoundTo('_apply_rev_' + which))
+
+
+SUBS, SUBX = "self._subjacs[('y', 's')]", "self._subjacs[('y', 'x')]"
+IREQ = ['r1 == r0 + r and r1 <= nr', 'c1 == c0 + c and c1 <= no', 'e1 == e0 + e and e1 <= ni']
+for mode in ('fwd', 'rev'):
+    for has_s, has_x, has_y in ((True, True, True), (True, False, True), (False, True, True), (True, True, False)):
+        params = dict(self=Obj('DictionaryJacobian', _randgen=None, _has_children=False,
+                               _subjacs=DictT({('y', 's'): dsub2(('r0', 'r1'), ('c0', 'c1'), 'r', 'c', 'output'),
+                                               ('y', 'x'): dsub2(('r0', 'r1'), ('e0', 'e1'), 'r', 'e', 'input')})),
+                      system=OpaqueT('system'),
+                      d_inputs=names_vec('ni', {'x'} if has_x else set()), d_outputs=names_vec('no', {'s'} if has_s else set()),
+                      d_residuals=names_vec('nr', {'y'} if has_y else set()), mode=mode)
+        TS = 'Sum(c, lambda j: %s.info["val"][i, j] * d_outputs._data[c0 + j])' % SUBS if (has_s and has_y) else '0'
+        TX = 'Sum(e, lambda j: %s.info["val"][i, j] * d_inputs._data[e0 + j])' % SUBX if (has_x and has_y) else '0'
+        if mode == 'fwd':
+            ens = ['all(approx(d_residuals._data[r0 + i], old(d_residuals._data[r0 + i]) + %s + %s) for i in range(r))' % (TS, TX),
+                   'all(implies(not (r0 <= i and i < r1), d_residuals._data[i] == old(d_residuals._data[i])) for i in range(nr))']
+            mods = ['d_residuals._data']
+        else:
+            ens = []
+            if has_s and has_y:
+                ens.append('all(approx(d_outputs._data[c0 + j], old(d_outputs._data[c0 + j]) + Sum(r, lambda i: %s.info["val"][i, j] * d_residuals._data[r0 + i])) for j in range(c))' % SUBS)
+            ens.append('all(implies(not (%s), d_outputs._data[i] == old(d_outputs._data[i])) for i in range(no))' % ('c0 <= i and i < c1' if (has_s and has_y) else 'False'))
+            if has_x and has_y:
+                ens.append('all(approx(d_inputs._data[e0 + j], old(d_inputs._data[e0 + j]) + Sum(r, lambda i: %s.info["val"][i, j] * d_residuals._data[r0 + i])) for j in range(e))' % SUBX)
+            ens.append('all(implies(not (%s), d_inputs._data[i] == old(d_inputs._data[i])) for i in range(ni))' % ('e0 <= i and i < e1' if (has_x and has_y) else 'False'))
+            mods = ['d_outputs._data', 'd_inputs._data']
+        contract(DJ + '::DictionaryJacobian._apply', ['C02', 'C11'], params, requires=IREQ, ensures=ens,
+                 modifies=mods + [SUBS + '._in_view', SUBS + '._res_view', SUBS + '._out_view', SUBX + '._in_view', SUBX + '._res_view', SUBX + '._out_view'],
+                 inline={'asarray'},
+                 assumed={'with system._unscaled_context': (Assumed(), Assumed()),
+                          'self._get_subjacs': Assumed(returns_expr='self._subjacs', note='returns self._subjacs (built in setup)'),
+                          'self._get_ordered_subjac_keys': Assumed(returns_expr="[('y', 's'), ('y', 'x')]", note='the keys of self._subjacs in a fixed order'),
+                          'system._get_subjac_owners': Assumed(returns_expr='{}', note='single process: no key has a remote owner'),
+                          'abs_resids': Assumed(returns=OpaqueT('view'), note='a view of the variable (only tested against None here)'),
+                          'abs_outs': Assumed(returns=OpaqueT('view'), note='a view of the variable (only tested against None here)'),
+                          'abs_ins': Assumed(returns=OpaqueT('view'), note='a view of the variable (only tested against None here)')},
+                 name=DJ + '::DictionaryJacobian._apply[%s,outputs=%s,inputs=%s,residuals=%s]' % (mode, has_s, has_x, has_y),
+                 canaries=([('reverse mode skips the sub-jacobians', ('subjacs[abs_key].apply_rev(d_inputs, d_outputs, d_residuals, randgen)', 'pass'), 'post')]
+                           if (mode, has_s, has_x, has_y) == ('rev', True, True, True) else
+                           [('forward mode skips keys whose wrt variable is an input', ('elif other_name in d_inp_names:\n                    wrtvec = abs_ins(other_name)', 'elif False:\n                    wrtvec = abs_ins(other_name)'), 'post')]
+                           if (mode, has_s, has_x, has_y) == ('fwd', True, True, True) else []))
